@@ -195,7 +195,11 @@ TAdopt ==
 TAssignStart ==
   /\ IsEvent("AssignStart")
   /\ Range(Ev.tps) = adopted[Ev.c].tps
-  /\ \A o \in Clients : (alive[o] /\ mid[o] # "" /\ cgen[o] = adopted[Ev.c].gen) => o \notin inRevoke
+  \* C05: no member that has joined this generation is still inside the on_partitions_revoked of its PREVIOUS
+  \* assignment (a member already revoking the assignment of THIS generation -- it is moving on to the next one,
+  \* e.g. after a subscription change -- does not count: that callback belongs to the next generation)
+  /\ \A o \in Clients : (alive[o] /\ mid[o] # "" /\ cgen[o] = adopted[Ev.c].gen /\ adopted[o].gen < adopted[Ev.c].gen)
+                          => o \notin inRevoke
   /\ Keep(<<lagUntil, subChg, mid, cgen, expectSync, distd, adopted, gateUp, inRevoke, needRevoke, subs, alive, start, pos, dl, ever,
             fetched, committed>>)
 
